@@ -11,9 +11,9 @@ variables (`typecheck`, `clear_loaded`, `use_loaded`, `return_loaded`, `set_fp`,
 GENERATED guards) on every class of initial cache file and decides that both give the same sequence of observable
 actions, the same final file, the same answers, the same fatal/non-fatal outcome — so the hand transcription and the
 regenerated program text agree semantically (for one process run alone), not only textually.
-Outside this semantics: generic `if` conditions that are not cache conditions (`SPSDK_CACHE_DISABLED`,
-"fingerprint changed") are fixed per function (`Fn.ifTaken`); an exception caught by an OUTER `try` (none in the
-source) is reported as `unsupported`.
+The listings are in the generator's normal form (conditions that are not cache conditions and merely guard a bail-out —
+`SPSDK_CACHE_DISABLED`, "fingerprint unchanged" — do not appear; an `if`/`else` tag that remains is never activated, so such a
+program disagrees with the model and is reported).  An exception caught by an OUTER `try` (none in the source) is `unsupported`.
 -/
 import SpsdkVerif.Proofs.DbCacheCodec
 import SpsdkVerif.Proofs.DbCacheProgram
@@ -24,12 +24,6 @@ open SpsdkVerif
 inductive Fn where
   | quick | loader | writer
   deriving DecidableEq, Repr
-
-/-- generic (non-cache) `if`s: the quick function's `if SPSDK_CACHE_DISABLED` is not taken, the config functions'
-    outer `if`s (cache enabled / fingerprint changed) are -/
-def Fn.ifTaken : Fn → Bool
-  | .quick => false
-  | _ => true
 
 structure LS where
   file : Option Bytes
@@ -147,7 +141,7 @@ def step (env : Env) (fn : Fn) (st : LS) (item : ProgItem) : LS :=
 
 /-- run one function -/
 def runFn (env : Env) (fn : Fn) (items : List ProgItem) (st : LS) : LS :=
-  let st0 : LS := { st with active := [[if fn.ifTaken then "if" else "else"]], pending := none, returned := false,
+  let st0 : LS := { st with active := [], pending := none, returned := false,
                             loaded := if fn == .writer then none else st.loaded, buf := [], toTmp := false }
   let st1 := items.foldl (step env fn) st0
   match st1.pending with
